@@ -38,6 +38,8 @@ pub enum COp {
     BNew { b: usize, clone: bool },
     BAdd { b: usize, t: usize, v: u64 },
     BAddBundle { b: usize, k: usize, bundle: Bundle },
+    /// `builder.add_bundle(&built_clone_bundle)`
+    BAddBuilt { b: usize, from: usize },
     BObs { b: usize },
     BClear { b: usize },
     BSpawn { b: usize, w: usize },
@@ -83,6 +85,7 @@ impl COp {
             COp::BNew { b, clone } => format!("bnew B{} kind={}", b, if *clone { "clone" } else { "plain" }),
             COp::BAdd { b, t, v } => format!("badd B{} t={} v={}", b, t, v),
             COp::BAddBundle { b, k, bundle } => format!("badd_bundle B{} k={} b={}", b, k, show_comps(bundle)),
+            COp::BAddBuilt { b, from } => format!("badd_built B{} from=B{}", b, from),
             COp::BObs { b } => format!("bobs B{}", b),
             COp::BClear { b } => format!("bclear B{}", b),
             COp::BSpawn { b, w } => format!("bspawn B{} W{}", b, w),
@@ -124,6 +127,7 @@ impl COp {
             "bnew" => COp::BNew { b: idx(1), clone: f("kind") == "clone" },
             "badd" => COp::BAdd { b: idx(1), t: f("t").parse().unwrap(), v: f("v").parse().unwrap() },
             "badd_bundle" => COp::BAddBundle { b: idx(1), k: f("k").parse().unwrap(), bundle: parse_comps(f("b")) },
+            "badd_built" => COp::BAddBuilt { b: idx(1), from: f("from")[1..].parse().unwrap() },
             "bobs" => COp::BObs { b: idx(1) },
             "bclear" => COp::BClear { b: idx(1) },
             "bspawn" => COp::BSpawn { b: idx(1), w: idx(2) },
@@ -295,6 +299,24 @@ impl Containers {
                     }),
                     BBox::Built(_) => panic!("harness: add on a built bundle"),
                 }
+                "ok".into()
+            }
+            COp::BAddBuilt { b, from } => {
+                let src = self.builders.remove(from).expect("harness: no such built bundle");
+                if let BBox::Built(c) = &src {
+                    match self.builders.get_mut(b).expect("harness: no such builder") {
+                        BBox::Plain(eb) => {
+                            eb.add_bundle(c);
+                        }
+                        BBox::Clone(eb) => {
+                            eb.add_bundle(c);
+                        }
+                        BBox::Built(_) => panic!("harness: add on a built bundle"),
+                    }
+                } else {
+                    panic!("harness: badd_built from a builder");
+                }
+                self.builders.insert(*from, src);
                 "ok".into()
             }
             COp::BObs { b } => match self.builders.get_mut(b).expect("harness: no such builder") {
@@ -524,7 +546,8 @@ impl Containers {
         };
         // hooked state of the container the op touched
         match op {
-            COp::BNew { b, .. } | COp::BAdd { b, .. } | COp::BAddBundle { b, .. } | COp::BClear { b } | COp::BSpawn { b, .. }
+            COp::BNew { b, .. } | COp::BAdd { b, .. } | COp::BAddBundle { b, .. } | COp::BAddBuilt { b, .. } | COp::BClear { b }
+            | COp::BSpawn { b, .. }
             | COp::BBuildDrop { b } | COp::CSpawn { b, .. } => {
                 if let Some(bb) = self.builders.get(b) {
                     let d = match bb {
